@@ -33,23 +33,25 @@ BAD_LINES = {
 
 
 # one field of a well-formed line of every kind (set, req, presentations, internal types incl. log / id request /
-# heartbeat / version, stream) replaced by a token that is certainly not an integer, or by a value out of range
+# heartbeat / version, stream) replaced by a token that is certainly not an integer, or by a value out of range;
+# swept one by one in C03 (each followed by a well-formed line) and sampled by the random histories
 _SHAPES = ["1;0;1;0;0;21.5", "1;0;2;0;0;", "1;255;0;0;17;2.0", "1;0;0;0;6;desc", "0;255;3;0;9;TSF:MSG:READ", "0;255;3;0;14;Gateway startup complete.",
            "255;255;3;0;3;", "1;255;3;0;0;57", "1;255;3;0;22;1111", "1;255;3;0;32;500", "0;255;3;0;2;2.3.2", "1;255;3;0;11;sketch",
            "1;255;3;0;1;", "1;255;3;0;6;0", "1;255;4;0;0;0A0001005000D446", "1;255;3;1;13;", "0;255;0;0;18;2.3.2"]
 _TOKENS = ["?", "a", "", "1.0", "0x1", "-", "1e3", "1,0", "None", "nan"]
 _RANGES = {0: ["256", "-1", "1000"], 1: ["256", "-1"], 2: ["5", "-1", "9"], 3: ["2", "-1"]}
+GENERATED_BAD: list[tuple[str, str]] = []      # (class, line)
 for _shape in _SHAPES:
     for _i in range(5):
         for _tok in _TOKENS[(len(_shape) + _i) % 3::3]:
             _f = _shape.split(";", 5)
             _f[_i] = _tok
-            BAD_LINES["alpha"].append(";".join(_f) + "\n")
+            GENERATED_BAD.append(("alpha", ";".join(_f) + "\n"))
         for _tok in _RANGES.get(_i, [])[:1 + (len(_shape) + _i) % 2]:
             _f = _shape.split(";", 5)
             _f[_i] = _tok
-            BAD_LINES["overrange"].append(";".join(_f) + "\n")
-    BAD_LINES["short"].append(";".join(_shape.split(";", 5)[:5]) + "\n")
+            GENERATED_BAD.append(("overrange", ";".join(_f) + "\n"))
+    GENERATED_BAD.append(("short", ";".join(_shape.split(";", 5)[:5]) + "\n"))
 
 
 class _Obj:
@@ -285,6 +287,9 @@ def random_history(rnd: random.Random, prop: str, length: int) -> tuple[dict, li
         else:
             cls = rnd.choice(sorted(BAD_LINES))
             ev = dict(k="recvbad", p=cls, line=rnd.choice(BAD_LINES[cls]))
+            if rnd.random() < 0.4:
+                gcls, gline = rnd.choice(GENERATED_BAD)
+                ev = dict(k="recvbad", p=gcls, line=gline)
         evs.append(ev)
     return init, evs
 
@@ -516,6 +521,14 @@ def check(prop: str) -> int:
         if prop == "C05":
             for init, events in version_grid(tier):
                 jobs.append((init, events, None))
+        if prop == "C03":
+            # every invalid line of the fixed classes and every generated one, each followed by a well-formed line
+            for k, (cls, line) in enumerate([(c, ln) for c, lines in BAD_LINES.items() for ln in lines] + GENERATED_BAD):
+                ver = ["none", "1.4", "2.0", "2.2"][k % 4]
+                init = {"metric": True, "ver": ver, "proto": "1.4" if ver == "none" else ver,
+                        "nodes": [[1, {"type": 17, "ver": "2.0", "bat": 0, "sn": "", "sv": "", "hb": 0, "sl": False, "rb": False,
+                                       "ch": [[0, {"type": 6, "desc": "", "vals": []}]]}]]}
+                jobs.append((init, [dict(k="recvbad", p=cls, line=line), dict(k="recv", n=1, c=0, cmd=1, ack=0, t=0, p="21.5")], None))
         if prop == "C03":  # the byte-stream half: the gateway over a real TCPTransport
             for _ in range(nrand):
                 init, events = stream_history(rnd, 14)
